@@ -87,6 +87,24 @@ type execState struct {
 	evTh   [][]*event
 }
 
+// Values stored under key "c" are slices (not comparable with ==): a cache holds values of any type. The history and
+// the model keep the plain number; wrap / unwrap / plainDump translate at the boundary.
+func wrap(key string, v int) interface{} {
+	if key == "c" {
+		return []int{v}
+	}
+	return v
+}
+
+func unwrap(v interface{}) interface{} {
+	if s, ok := v.([]int); ok && len(s) == 1 {
+		return s[0]
+	}
+	return v
+}
+
+var plainDump = strings.NewReplacer("[", "", "]", "")
+
 func (h harness) setup(st *execState) []func() {
 	st.lru = valid.NewLRU(h.cap)
 	if h.faults {
@@ -101,7 +119,7 @@ func (h harness) setup(st *execState) []func() {
 		st.lru.Delete(fmt.Sprintf("w%d", i))
 	}
 	for i, k := range h.prefill {
-		st.lru.Store(k, -(i + 1))
+		st.lru.Store(k, wrap(k, -(i+1)))
 	}
 	st.evTh = make([][]*event, len(h.progs))
 	bodies := make([]func(), len(h.progs))
@@ -123,7 +141,7 @@ func (h harness) setup(st *execState) []func() {
 						defer func() { recover() }()
 						switch o.kind {
 						case 'S':
-							st.lru.Store(o.key, e.val)
+							st.lru.Store(o.key, wrap(o.key, e.val))
 						case 'L':
 							st.lru.Load(o.key)
 						case 'D':
@@ -151,15 +169,16 @@ func (h harness) setup(st *execState) []func() {
 				}
 				switch o.kind {
 				case 'S':
-					st.lru.Store(o.key, e.val)
+					st.lru.Store(o.key, wrap(o.key, e.val))
 				case 'L':
 					e.outV, e.outOK = st.lru.Load(o.key)
+					e.outV = unwrap(e.outV)
 				case 'D':
 					st.lru.Delete(o.key)
 				case 'N':
 					e.outN = st.lru.Len()
 				case 'P':
-					e.outS = st.lru.Dump()
+					e.outS = plainDump.Replace(st.lru.Dump())
 				}
 				e.ret = vsched.Tick()
 			}
@@ -178,10 +197,10 @@ type final struct {
 func (st *execState) quiesce() final {
 	f := final{loads: map[string]string{}}
 	f.n = st.lru.Len()
-	f.dump = st.lru.Dump()
+	f.dump = plainDump.Replace(st.lru.Dump())
 	for _, k := range []string{"a", "b", "c"} {
 		v, ok := st.lru.Load(k)
-		f.loads[k] = fmt.Sprint(v, ok)
+		f.loads[k] = fmt.Sprint(unwrap(v), ok)
 	}
 	return f
 }
